@@ -104,7 +104,7 @@ Inductive schema_change : Type :=
 
 (* Vec::with_capacity(number_of_arguments) of Strings, then the arguments *)
 Definition read_arg_list : parser (list bytes) :=
-  n <- read_short ;; tick_alloc (n * SZ_STRING) ;;; repeatS read_string n.
+  n <- read_short ;; tick_alloc (u16 n * SZ_STRING) ;;; repeatS read_string n.
 
 Definition deser_schema_change : parser schema_change :=
   cts <- read_string ;;
@@ -394,16 +394,20 @@ Definition MAX_BODY_PREALLOCATION : N := 2 ^ 20.
 
 (* read_exact of 9 bytes, validation, then the body: Vec::with_capacity(length.min(1 MiB)) and
    reads until [length] bytes arrived or the stream ends (ConnectionClosed) *)
+(* the nine header bytes: direction bit, version 4, flags, stream, opcode table, body length *)
+Definition parse_header : parser header :=
+  v <- read_u8 ;;
+  if N.land v 128 =? 0 then fail EFrameFromClient
+  else if negb (N.land v 127 =? 4) then fail EVersionNotSupported
+  else
+    fl <- read_u8 ;; st <- read_be 2 ;; op <- read_u8 ;;
+    if negb (opcode_ok op) then fail EUnknownOpcode
+    else len <- read_be 4 ;; ret (mkHeader v fl (to_signed 16 st) op len).
+
 Definition read_frame : parser (header * bytes) :=
   raw <- map_err (fun _ => EHeaderIo) (read_raw 9) ;;
   (fun rest =>
-     match run (v <- read_u8 ;;
-                if N.land v 128 =? 0 then fail EFrameFromClient
-                else if negb (N.land v 127 =? 4) then fail EVersionNotSupported
-                else
-                  fl <- read_u8 ;; st <- read_be 2 ;; op <- read_u8 ;;
-                  if negb (opcode_ok op) then fail EUnknownOpcode
-                  else len <- read_be 4 ;; ret (mkHeader v fl (to_signed 16 st) op len)) raw with
+     match run parse_header raw with
      | Err e => (Err e, c0)
      | Ok (h, _) =>
        match ntake (h_length h) rest with
